@@ -410,143 +410,10 @@ func runC03(c *eng.Ctx) {
 	})
 
 	// ---- block writer anchors -----------------------------------------------------------------------------------------------------------
-	c.Rule("ANCHOR", mfT+".FlushSeries{startAt}", func() {
-		f := c.Fn(mfT + ".FlushSeries")
-		bucket := eng.CallTo(mfT + ".flushLevel2SeriesBucket")
-		anchorRule(c, f, ".Level4.startAt", bucket, "flushLevel2SeriesBucket")
-		anchorRule(c, f, ".Level3.startAt", bucket, "flushLevel2SeriesBucket")
-		// at exit (deferred) the level-4 anchor is re-captured for the next series, after this series' offsets footer
-		okDef := false
-		for _, cl := range f.AnonFuncs {
-			for _, s := range p.Sites(cl, func(p *eng.Prog, in ssa.Instruction) bool {
-				st, ok := in.(*ssa.Store)
-				return ok && strings.HasSuffix(p.Desc(st.Addr), ".Level4.startAt") && strings.Contains(p.Desc(st.Val), "kvWriter.Size()")
-			}) {
-				_ = s
-				okDef = true
-			}
-		}
-		c.Check(okDef, "anchor-recaptured-at-exit", nil, f, "when a series is done the level-4 anchor is moved to the current end of the stream (deferred, so on every exit)", "")
-		ff := c.Fn(mfT + ".flushField")
-		wr := c.Some(ff, invokeOn(".kvWriter", "Write"), "kvWriter.Write(data)")
-		for i, s := range p.Sites(ff, invokeOn(".fieldDataOffsets", "Add")) {
-			a := eng.CallArgs(s.Instr.(*ssa.Call))[0]
-			d := p.Desc(a)
-			c.Check(strings.Contains(d, "kvWriter.Size()") && strings.Contains(d, "-") && strings.Contains(d, ".Level4.startAt"), fmt.Sprintf("field-offset-relative[%d]", i), s.Instr, ff,
-				"a field's offset is the stream position before its data minus the level-4 anchor", "offset "+d)
-			var sz ssa.Instruction
-			eng.WalkExpr(a, func(x ssa.Value) bool {
-				if cl, ok := x.(*ssa.Call); ok && cl.Common().IsInvoke() && cl.Common().Method.Name() == "Size" {
-					sz = cl
-				}
-				return true
-			})
-			c.Check(sz != nil && eng.DominatedBy(ff, wr[0].Instr, []eng.Site{{Fn: ff, Instr: sz}}, nil), fmt.Sprintf("position-before-data[%d]", i), s.Instr, ff, "the position is taken before the field's data is written", "")
-		}
-	})
+	c.Rule("ANCHOR", mfT+".FlushSeries{startAt}", func() { flusherAnchors(c) })
 
 	// ---- block footer ------------------------------------------------------------------------------------------------------------------------
-	c.Rule("LAYOUT", "tsdb/tblstore/metricsdata{block footer}", func() {
-		w := c.Fn(mfT + ".CommitMetric")
-		type span struct {
-			lo, hi int64
-			role   string
-		}
-		var ws []span
-		for _, b := range w.Blocks {
-			for _, in := range b.Instrs {
-				call, ok := in.(*ssa.Call)
-				if !ok {
-					continue
-				}
-				k := strings.Join(p.CalleeKeys(call), "")
-				width := int64(0)
-				switch {
-				case strings.HasSuffix(k, "littleEndian.PutUint16"):
-					width = 2
-				case strings.HasSuffix(k, "littleEndian.PutUint32"):
-					width = 4
-				default:
-					continue
-				}
-				a := eng.CallArgs(call)
-				sl, ok := eng.Unwrap(a[0]).(*ssa.Slice)
-				if !ok || !strings.HasSuffix(p.Desc(sl.X), ".Level2.footer") {
-					continue
-				}
-				lo := int64(0)
-				if sl.Low != nil {
-					lo, _ = eng.ConstInt(sl.Low)
-				}
-				d := p.Desc(a[1])
-				role := "?"
-				switch {
-				case strings.HasSuffix(d, "slotRange.Start"):
-					role = "slotStart"
-				case strings.HasSuffix(d, "slotRange.End"):
-					role = "slotEnd"
-				case strings.Contains(d, "CRC32CheckSum"):
-					role = "crc"
-				default:
-					// a position captured with kvWriter.Size(): classify by what is written right after the capture
-					role = "pos:" + positionRole(p, w, a[1])
-				}
-				ws = append(ws, span{lo, lo + width, role})
-			}
-		}
-		if len(ws) != 6 {
-			c.Undecided("expected 6 footer fields in CommitMetric, found %d", len(ws))
-		}
-		r := c.Fn("tsdb/tblstore/metricsdata.metricReader.initReader")
-		var rs []span
-		for _, b := range r.Blocks {
-			for _, in := range b.Instrs {
-				call, ok := in.(*ssa.Call)
-				if !ok {
-					continue
-				}
-				k := strings.Join(p.CalleeKeys(call), "")
-				width := int64(0)
-				switch {
-				case strings.HasSuffix(k, "littleEndian.Uint16"):
-					width = 2
-				case strings.HasSuffix(k, "littleEndian.Uint32"):
-					width = 4
-				default:
-					continue
-				}
-				sl, ok := eng.Unwrap(eng.CallArgs(call)[0]).(*ssa.Slice)
-				if !ok || sl.Low == nil {
-					continue
-				}
-				base, off := eng.SplitConstAdd(sl.Low)
-				if base == nil || !strings.Contains(p.Desc(base), "len(") {
-					continue
-				}
-				role := readerRole(p, r, call)
-				rs = append(rs, span{off, off + width, role})
-			}
-		}
-		byRole := func(l []span) map[string]span {
-			m := map[string]span{}
-			for _, s := range l {
-				m[s.role] = s
-			}
-			return m
-		}
-		wm, rm := byRole(ws), byRole(rs)
-		var ext int64
-		for _, role := range []string{"slotStart", "slotEnd", "pos:fieldMetas", "pos:seriesIDs", "pos:highKeyOffsets", "crc"} {
-			a, ok1 := wm[role]
-			b, ok2 := rm[role]
-			c.Check(ok1 && ok2 && a.lo == b.lo && a.hi == b.hi, "footer:"+role, nil, w, "the reader takes "+role+" from the footer bytes the writer stored it in", fmt.Sprintf("writer %v reader %v", wm[role], rm[role]))
-			if a.hi > ext {
-				ext = a.hi
-			}
-		}
-		fsz := constOf(c, "tsdb/tblstore/metricsdata", "dataFooterSize")
-		c.Check(fsz == ext, "footer-size", nil, w, "dataFooterSize equals the extent the writer fills", fmt.Sprintf("const %d, extent %d", fsz, ext))
-	})
+	c.Rule("LAYOUT", "tsdb/tblstore/metricsdata{block footer}", func() { blockFooter(c) })
 
 	// ---- field-type tables ---------------------------------------------------------------------------------------------------------------------
 	c.Rule("EXHAUSTIVE", "series/field{type tables}", func() { fieldTypeTables(c) })
@@ -636,4 +503,148 @@ func readerRole(p *eng.Prog, fn *ssa.Function, call *ssa.Call) string {
 	}
 	visit(call, 0)
 	return role
+}
+
+// flusherAnchors (shared by C03 and C11): relative offsets in the metric block writer are taken
+// against freshly captured anchors.
+func flusherAnchors(c *eng.Ctx) {
+	p := c.P
+
+	f := c.Fn(mfT + ".FlushSeries")
+	bucket := eng.CallTo(mfT + ".flushLevel2SeriesBucket")
+	anchorRule(c, f, ".Level4.startAt", bucket, "flushLevel2SeriesBucket")
+	anchorRule(c, f, ".Level3.startAt", bucket, "flushLevel2SeriesBucket")
+	// at exit (deferred) the level-4 anchor is re-captured for the next series, after this series' offsets footer
+	okDef := false
+	for _, cl := range f.AnonFuncs {
+		for _, s := range p.Sites(cl, func(p *eng.Prog, in ssa.Instruction) bool {
+			st, ok := in.(*ssa.Store)
+			return ok && strings.HasSuffix(p.Desc(st.Addr), ".Level4.startAt") && strings.Contains(p.Desc(st.Val), "kvWriter.Size()")
+		}) {
+			_ = s
+			okDef = true
+		}
+	}
+	c.Check(okDef, "anchor-recaptured-at-exit", nil, f, "when a series is done the level-4 anchor is moved to the current end of the stream (deferred, so on every exit)", "")
+	ff := c.Fn(mfT + ".flushField")
+	wr := c.Some(ff, invokeOn(".kvWriter", "Write"), "kvWriter.Write(data)")
+	for i, s := range p.Sites(ff, invokeOn(".fieldDataOffsets", "Add")) {
+		a := eng.CallArgs(s.Instr.(*ssa.Call))[0]
+		d := p.Desc(a)
+		c.Check(strings.Contains(d, "kvWriter.Size()") && strings.Contains(d, "-") && strings.Contains(d, ".Level4.startAt"), fmt.Sprintf("field-offset-relative[%d]", i), s.Instr, ff,
+			"a field's offset is the stream position before its data minus the level-4 anchor", "offset "+d)
+		var sz ssa.Instruction
+		eng.WalkExpr(a, func(x ssa.Value) bool {
+			if cl, ok := x.(*ssa.Call); ok && cl.Common().IsInvoke() && cl.Common().Method.Name() == "Size" {
+				sz = cl
+			}
+			return true
+		})
+		c.Check(sz != nil && eng.DominatedBy(ff, wr[0].Instr, []eng.Site{{Fn: ff, Instr: sz}}, nil), fmt.Sprintf("position-before-data[%d]", i), s.Instr, ff, "the position is taken before the field's data is written", "")
+	}
+}
+
+// blockFooter (shared by C03 and C11): writer/reader agreement of the metric block footer.
+func blockFooter(c *eng.Ctx) {
+	p := c.P
+
+	w := c.Fn(mfT + ".CommitMetric")
+	type span struct {
+		lo, hi int64
+		role   string
+	}
+	var ws []span
+	for _, b := range w.Blocks {
+		for _, in := range b.Instrs {
+			call, ok := in.(*ssa.Call)
+			if !ok {
+				continue
+			}
+			k := strings.Join(p.CalleeKeys(call), "")
+			width := int64(0)
+			switch {
+			case strings.HasSuffix(k, "littleEndian.PutUint16"):
+				width = 2
+			case strings.HasSuffix(k, "littleEndian.PutUint32"):
+				width = 4
+			default:
+				continue
+			}
+			a := eng.CallArgs(call)
+			sl, ok := eng.Unwrap(a[0]).(*ssa.Slice)
+			if !ok || !strings.HasSuffix(p.Desc(sl.X), ".Level2.footer") {
+				continue
+			}
+			lo := int64(0)
+			if sl.Low != nil {
+				lo, _ = eng.ConstInt(sl.Low)
+			}
+			d := p.Desc(a[1])
+			role := "?"
+			switch {
+			case strings.HasSuffix(d, "slotRange.Start"):
+				role = "slotStart"
+			case strings.HasSuffix(d, "slotRange.End"):
+				role = "slotEnd"
+			case strings.Contains(d, "CRC32CheckSum"):
+				role = "crc"
+			default:
+				// a position captured with kvWriter.Size(): classify by what is written right after the capture
+				role = "pos:" + positionRole(p, w, a[1])
+			}
+			ws = append(ws, span{lo, lo + width, role})
+		}
+	}
+	if len(ws) != 6 {
+		c.Undecided("expected 6 footer fields in CommitMetric, found %d", len(ws))
+	}
+	r := c.Fn("tsdb/tblstore/metricsdata.metricReader.initReader")
+	var rs []span
+	for _, b := range r.Blocks {
+		for _, in := range b.Instrs {
+			call, ok := in.(*ssa.Call)
+			if !ok {
+				continue
+			}
+			k := strings.Join(p.CalleeKeys(call), "")
+			width := int64(0)
+			switch {
+			case strings.HasSuffix(k, "littleEndian.Uint16"):
+				width = 2
+			case strings.HasSuffix(k, "littleEndian.Uint32"):
+				width = 4
+			default:
+				continue
+			}
+			sl, ok := eng.Unwrap(eng.CallArgs(call)[0]).(*ssa.Slice)
+			if !ok || sl.Low == nil {
+				continue
+			}
+			base, off := eng.SplitConstAdd(sl.Low)
+			if base == nil || !strings.Contains(p.Desc(base), "len(") {
+				continue
+			}
+			role := readerRole(p, r, call)
+			rs = append(rs, span{off, off + width, role})
+		}
+	}
+	byRole := func(l []span) map[string]span {
+		m := map[string]span{}
+		for _, s := range l {
+			m[s.role] = s
+		}
+		return m
+	}
+	wm, rm := byRole(ws), byRole(rs)
+	var ext int64
+	for _, role := range []string{"slotStart", "slotEnd", "pos:fieldMetas", "pos:seriesIDs", "pos:highKeyOffsets", "crc"} {
+		a, ok1 := wm[role]
+		b, ok2 := rm[role]
+		c.Check(ok1 && ok2 && a.lo == b.lo && a.hi == b.hi, "footer:"+role, nil, w, "the reader takes "+role+" from the footer bytes the writer stored it in", fmt.Sprintf("writer %v reader %v", wm[role], rm[role]))
+		if a.hi > ext {
+			ext = a.hi
+		}
+	}
+	fsz := constOf(c, "tsdb/tblstore/metricsdata", "dataFooterSize")
+	c.Check(fsz == ext, "footer-size", nil, w, "dataFooterSize equals the extent the writer fills", fmt.Sprintf("const %d, extent %d", fsz, ext))
 }
